@@ -88,10 +88,41 @@ pub fn run(args: &[&str]) -> String {
         return "bad-request".into();
       }
       let s2 = s.clone();
+      // every way of constructing an IotaDID from this string must treat it exactly as `parse` does
+      let paths = |parsed: Option<&IotaDID>| -> Option<String> {
+        let js = serde_json::to_string(&s).unwrap_or_default();
+        let (sa, sb, sc) = (s.clone(), s.clone(), s.clone());
+        let rs: [(&str, std::thread::Result<Option<IotaDID>>); 4] = [
+          ("FromStr", std::panic::catch_unwind(move || sa.parse::<IotaDID>().ok())),
+          ("TryFrom<&str>", std::panic::catch_unwind(move || IotaDID::try_from(sb.as_str()).ok())),
+          ("TryFrom<String>", std::panic::catch_unwind(move || IotaDID::try_from(sc).ok())),
+          ("Deserialize", std::panic::catch_unwind(move || serde_json::from_str::<IotaDID>(&js).ok())),
+        ];
+        for (name, r) in rs {
+          match r {
+            Err(_) => return Some(format!("construction-paths-differ:{} panics on {:?}", name, s)),
+            // what another path accepts must itself satisfy the property, and denote the same DID as `parse` when both
+            // accept (whether a path accepts at all is its own business: `parse` lower-cases with Unicode rules, the
+            // conversion from a CoreDID with ASCII rules)
+            Ok(Some(v)) => {
+              if let Some(f) = oracle(&v) {
+                return Some(format!("{} (value accepted by {})", f, name));
+              }
+              if let Some(p) = parsed {
+                if *p != v || p.to_string() != v.to_string() {
+                  return Some(format!("construction-paths-differ:{} gives {:?} for {:?}, parse gives {:?}", name, v.to_string(), s, p.to_string()));
+                }
+              }
+            }
+            Ok(None) => {}
+          }
+        }
+        None
+      };
       match std::panic::catch_unwind(move || IotaDID::parse(&s2)) {
         Err(_) => "panic\t#FAIL:panic:IotaDID::parse panicked".into(),
-        Ok(Err(_)) => "err".into(),
-        Ok(Ok(d)) => with(show(&d), oracle(&d)),
+        Ok(Err(_)) => with("err".into(), paths(None)),
+        Ok(Ok(d)) => with(show(&d), oracle(&d).or_else(|| paths(Some(&d)))),
       }
     }
     ["fromcore", h] => {
